@@ -58,6 +58,18 @@ REQUIRE = {  # about 1/20 of what one quick run observes on an idle machine (the
     "edit_focus_at:last|iadd_attr": 9,
     "edit_focus_at:last|[:]=items": 15,
     "edit_focus_at:middle|del[i]": 5,
+    "decor_unselectable_widgets_built": 300,
+    "decor_unselectable:disable:leaf": 100,
+    "decor_unselectable:force_unsel:leaf": 50,
+    "decor_unselectable:wwrap_unsel:leaf": 50,
+    "decor_selectable_widgets_built": 50,
+    "directed_form_histories": 20,
+    "arrow_entered_nested_container": 60,
+    "arrow_entered_nested_with_decor_unsel_on_entry_row": 25,
+    "arrow_entered_decor_entry_row:pile:down": 8,
+    "arrow_entered_decor_entry_row:pile:up": 4,
+    "arrow_entered_decor_entry_row:cols:left": 2,
+    "arrow_entered_decor_entry_row:cols:right": 3,
     "kind:pile": 6000,
     "kind:cols": 5000,
     "kind:grid": 4500,
@@ -80,7 +92,10 @@ REQUIRE = {  # about 1/20 of what one quick run observes on an idle machine (the
 RULE = (
     "seeded recipes of Pile/Columns/GridFlow/Frame/Overlay/ListBox nestings (depth <= 4, box or flow sized, optional "
     "AttrMap/Padding/Filler/BoxAdapter decorations, 0..8 children, selectable/unselectable spy leaves with per-leaf "
-    "handled-key sets) x op histories (20 quick / 40 thorough non-render ops) of navigation keys, characters, "
+    "handled-key sets, leaves and containers whose selectability differs from their base widget's (WidgetDisable, AttrMap around "
+    "it, an AttrMap subclass and a WidgetWrap overriding selectable()), 15% directed [selectable, nested group with such a leaf on "
+    "its first/last row, selectable] forms walked with the arrow keys of their axis) "
+    "x op histories (20 quick / 40 thorough non-render ops) of navigation keys, characters, "
     "button-1 presses at random cells, valid/invalid focus_position and set_focus_path, contents insert/append/+=/"
     "del/pop()/pop(i)/remove/reverse/item and slice assignment/[:]=/clear/contents=/contents+= (half of them right after putting the focus on the first, last or middle child), Frame part replace/remove, Overlay part replace, "
     "get_focus_path save/restore, renders at 4 sizes; a case = (tree recipe, op list); distinct = distinct such pairs; "
@@ -110,6 +125,7 @@ DEFAULT_CMAP = {
 EXTRA_CMAP = {"j": "down", "k": "up", "h": "left", "l": "right"}
 KIND_NAME = {"pile": "Pile", "cols": "Columns", "grid": "GridFlow", "frame": "Frame", "overlay": "Overlay", "list": "ListBox", "leaf": "leaf"}
 LISTLIKE = ("pile", "cols", "grid", "list")
+DECOR_UNSEL_WRAPS = ("disable", "disable_attrmap", "force_unsel", "wwrap_unsel")
 TAGCLASS = {"build": "build", "render": "render", "key": "input", "mouse": "input", "focus-set": "assign", "path-set": "assign", "mutate": "edit", "mutate-raised": "edit-raised"}
 
 
@@ -173,7 +189,7 @@ class World:
             self.keep.append(w)
 
     def build(self, rec) -> Node:
-        from vmon.monitors.c08_spies import BoxSpy, FlowSpy
+        from vmon.monitors.c08_spies import BoxSpy, FlowSpy, ForceSelAttrMap, SelWrap
 
         u = self.u
         n = Node(rec)
@@ -236,11 +252,24 @@ class World:
             w = u.AttrMap(base, None)
         elif wrap == "padding":
             w = u.Padding(base, left=1)
+        elif wrap == "disable":
+            w = u.WidgetDisable(base)
+        elif wrap == "disable_attrmap":
+            w = u.AttrMap(u.WidgetDisable(base), None)
+        elif wrap in ("force_sel", "force_unsel"):
+            w = ForceSelAttrMap(base, wrap == "force_sel")
+        elif wrap in ("wwrap_sel", "wwrap_unsel"):
+            w = SelWrap(base, wrap == "wwrap_sel")
         elif wrap == "filler":
             w = u.Filler(base, "top")
         elif isinstance(wrap, list):
             w = u.BoxAdapter(base, wrap[1])
         n.w = w
+        if wrap in DECOR_UNSEL_WRAPS and base.selectable():
+            self.hooks.c("decor_unselectable_widgets_built")
+            self.hooks.c(f"decor_unselectable:{wrap}:{k}")
+        elif wrap in ("force_sel", "wwrap_sel") and not base.selectable():
+            self.hooks.c("decor_selectable_widgets_built")
         self._reg(n, base, w)
         if k != "leaf":
             self._instrument(n)
@@ -764,10 +793,28 @@ class Session:
                 self.c(f"arrow_moved:{n.kind}")
                 neww = af[2]
                 if not neww.selectable():
+                    try:
+                        nosel = "" if any(c.w.selectable() for c in n.children()) else "|container-has-no-selectable-child"
+                    except Exception:  # noqa: BLE001
+                        nosel = ""
                     self.v(
-                        f"C08|keypress|arrow-moved-focus-onto-unselectable|{KIND_NAME[n.kind]}|{cmd}",
+                        f"C08|keypress|arrow-moved-focus-onto-unselectable|{KIND_NAME[n.kind]}|{cmd}{nosel}",
                         f"{key!r}: {KIND_NAME[n.kind]} cid={n.cid} focus {b4[0]!r} -> {af[0]!r} = {self.world.by_wid.get(id(neww))} which is not selectable",
                     )
+        if cmd in ARROWS:
+            # coverage: which nested containers did this arrow key enter, and what sits on the row it entered through?
+            for n in self.chain()[1:]:
+                if n.kind in LISTLIKE and n.ch and not any(x is n for x in self.before_chain):
+                    self.c("arrow_entered_nested_container")
+                    entry = n.ch[0] if cmd in ("down", "right") else n.ch[-1]
+                    if entry.rec.get("wrap") in DECOR_UNSEL_WRAPS:
+                        try:
+                            decor = entry.base.selectable() and not entry.w.selectable()
+                        except Exception:  # noqa: BLE001
+                            decor = False
+                        if decor:
+                            self.c("arrow_entered_nested_with_decor_unsel_on_entry_row")
+                            self.c(f"arrow_entered_decor_entry_row:{n.kind}:{cmd}")
         if not self.snap_eq(before, after):
             self.c("keys_that_moved_focus")
         self.check_all("key")
@@ -795,7 +842,7 @@ class Session:
             got = any(e[0] == "mouse" and e[1] == target[0] for e in self.log.events)
             self.c("mouse_press_on_leaf_cell_delivered" if got else "mouse_press_on_leaf_cell_not_delivered")
             leaf = next((x for x in all_nodes(self.root) if x.sid == target[0]), None)
-            if leaf is not None and leaf.base.selectable():
+            if leaf is not None and leaf.w.selectable():
                 self.c("mouse_press_on_selectable_leaf")
                 if any(x is leaf for x in self.chain()):
                     self.c("mouse_press_on_selectable_leaf_now_focused")
@@ -1277,6 +1324,9 @@ def gen_op(rng, gen, s: Session):
     x = rng.random()
     if s.pending_target is not None:
         x = 0.99
+    elif gen.navbias and rng.random() < 0.5:
+        # directed "form" trees: walk in and out of the nested group along its axis
+        return ["key", rng.choice(gen.navbias * 4 + ["home", "end"])]
     if x < 0.38 and rng.random() < 0.8:
         try:
             if not s.root.w.selectable():  # MainLoop would not deliver the key: spend the op on something else
@@ -1419,6 +1469,8 @@ def gen_history(ctx, rng, nops):
     """generate tree + ops online while executing them; returns (case, session)"""
     gen = Gen(rng, max_depth=4, cap=rng.choice([12, 25, 40, 60]))
     case = {"tree": gen.root(), "ops": [], "cmap": rng.random() < 0.2}
+    if gen.navbias:
+        ctx.count("directed_form_histories")
     gen.cap = MAX_SID
     with Env() as env:
         if case["cmap"]:
@@ -1508,7 +1560,7 @@ def _tree_variants(tree):
                     t = copy.deepcopy(tree)
                     get(t, path)[p] = None
                     yield t
-        if node.get("wrap") in ("attrmap", "padding"):
+        if node.get("wrap") in ("attrmap", "padding", "disable_attrmap"):
             t = copy.deepcopy(tree)
             del get(t, path)["wrap"]
             yield t
